@@ -2,11 +2,23 @@
    Property theorems only; each closed with [exact] and followed by Print Assumptions.
    Layers: Model/Defs.v (pure forests), Model/DefStore.v (heap with object identity),
    Model/DefObj.v (ownership trees = the reachable heap read as a tree with per-tag
-   object state).  [fx]/[fs] = true is the repaired code (see current_fx/current_fs). *)
+   object state).
+   Modes.  "The code as it is" = the CURRENT /repo = [current_fx = true], [current_fs = true]
+   (Model/DefStore.v, mirrored by FIXED/FIXED_F2 in harness/c09.py).  [fx = false] is the
+   behaviour BEFORE fix commit 60986da ("keep HedTag._expanded in step with expand_defs and
+   shrink_defs", former findings C09-F1/C09-F3); [fs = false] the behaviour BEFORE fix commit
+   cbb8087 (sorted Def-expand comparison, former C09-F2); HedTag.__eq__ is modelled as it is
+   since fix commit 2492808 (former C09-F4).  Theorems about [false] modes are records of
+   repaired defects, not statements about the implementation. *)
 From Coq Require Import List NArith Arith Bool.
 From HV Require Import Base.Res Base.Str Model.Defs Model.DefStore Model.DefObj
   Proofs.DefsProofs Proofs.DefsCanon Proofs.DefObjProofs Proofs.DefLayers.
 Import ListNotations.
+
+(* the mode the model runs in for the correspondence check *)
+Theorem C09_current_mode : current_fx = true /\ current_fs = true.
+Proof. exact current_mode. Qed.
+Print Assumptions C09_current_mode.
 
 (* ---- acceptance ---------------------------------------------------------- *)
 
@@ -46,7 +58,11 @@ Print Assumptions C09_duplicate_ignored.
 
 (* Several definitions in one string.  check_for_definitions is the fold of the
    per-definition check over the definition groups of the string, in order: the only
-   thing carried from one definition to the next is the dictionary ... *)
+   thing carried from one definition to the next is the dictionary.  (This first theorem
+   holds BY CONSTRUCTION of the model -- it re-expresses the fold_left that defines
+   check_for_definitions as a recursion; that the code carries no other state is what the
+   correspondence run with multi-definition strings checks.  The content is in the two
+   theorems that follow.) *)
 Theorem C09_check_for_definitions_fold : forall D f,
   check_for_definitions D f = check_defs D (find_top_level_definitions f).
 Proof. exact check_for_definitions_fold. Qed.
@@ -93,11 +109,55 @@ Print Assumptions C09_casefold_duplicate_example.
 
 (* ---- spec layer, all forests ---------------------------------------------- *)
 
-(* expansion changes Def tags with a matching definition into
-   (Def-expand/.., content[# := v]) and nothing else *)
+(* expansion changes Def tags for which [expansion D t] is defined into that group and
+   nothing else.  [expansion] is characterised declaratively by the next two theorems.
+   Without wf_dict, [expansion D t = None] ("left alone") also stands for the internal
+   ValueError of get_definition; under wf_dict (which acceptance guarantees,
+   C09_accept_keeps_wf) that case does not exist (C09_expansion_none_iff), and the object
+   layers raise the exception as the code does. *)
 Theorem C09_expand_only_defs : forall D f, Forall2 (exp_rel D) f (expand_t D f).
 Proof. exact expand_only_defs. Qed.
 Print Assumptions C09_expand_only_defs.
+
+(* "(Def-expand/Name[/v], content with '#' replaced by v)", stated without the model's
+   substitution function: [plug_node v] puts v for every '#' of every placeholder tag.
+   Side condition of the value case: at most one placeholder tag in the stored content
+   (acceptance stores exactly one tag with '#' for a value-taking definition; the code
+   substitutes in the FIRST placeholder tag only, which is then the only one). *)
+Theorem C09_expansion_declarative : forall D t e,
+  wf_dict D = true -> def_entry D t = Some e ->
+  let v := def_placeholder t in
+  let head := T (set_base t BDefExpand) in
+  (etakes e = is_nil v -> expansion D t = None) /\
+  (etakes e = negb (is_nil v) ->
+     match econtents e with
+     | Some (c0 :: c) =>
+         if is_nil v then expansion D t = Some [head; G (c0 :: c)]
+         else ph_count (c0 :: c) <= 1 -> expansion D t = Some [head; G (map (plug_node v) (c0 :: c))]
+     | _ => expansion D t = Some [head]
+     end).
+Proof. exact expansion_declarative. Qed.
+Print Assumptions C09_expansion_declarative.
+
+(* a Def tag is left alone exactly when its definition is missing or its value-ness does
+   not match -- never because of an exception *)
+Theorem C09_expansion_none_iff : forall D t,
+  wf_dict D = true ->
+  (expansion D t = None <->
+   def_entry D t = None \/
+   exists e, def_entry D t = Some e /\ etakes e = is_nil (def_placeholder t)).
+Proof. exact expansion_none_iff. Qed.
+Print Assumptions C09_expansion_none_iff.
+
+(* the premises of C09_expansion_declarative on a stored value-taking definition *)
+Theorem C09_expansion_declarative_example :
+  wf_dict ex_dict_q = true /\
+  exists e c, def_entry ex_dict_q (tg BDef (s_q ++ [47;51]%N)) = Some e /\ etakes e = true /\
+              econtents e = Some c /\ ph_count c = 1 /\
+              expansion ex_dict_q (tg BDef (s_q ++ [47;51]%N)) =
+                Some [T (set_base (tg BDef (s_q ++ [47;51]%N)) BDefExpand); G (map (plug_node [51]%N) c)].
+Proof. exact expansion_declarative_example. Qed.
+Print Assumptions C09_expansion_declarative_example.
 
 (* tags carry their library namespace (tl:Def/A, sc:Def/A in a schema group): all
    theorems of this file quantify over it; the expansion of a Def tag starts with the
@@ -114,6 +174,8 @@ Theorem C09_expand_idem_t : forall D f,
 Proof. exact expand_idem_t. Qed.
 Print Assumptions C09_expand_idem_t.
 
+(* shrinking an EXPANDED annotation restores the original: f has no written Def-expand
+   tag ([no_de]); a written Def-expand group is shrunk to a Def tag whatever its content *)
 Theorem C09_shrink_expand_t : forall D f,
   wf_dict D = true -> forallb no_de (all_tags_f f) = true ->
   shrink_t (expand_t D f) = Ok f.
@@ -121,8 +183,8 @@ Proof. exact shrink_expand_t. Qed.
 Print Assumptions C09_shrink_expand_t.
 
 (* ---- Def-expand validation -------------------------------------------------
-   Full statement, proved for the current code (fs = true: both sides sorted()
-   before the comparison, commit cbb8087) and ALL inputs:
+   Full statement, proved for the code as it is ([current_fs] = true: both sides sorted()
+   before the comparison, since fix commit cbb8087) and ALL inputs:
      validation accepts a Def-expand group exactly when its content equals
      (t, content[# := v]) up to sibling order at every level
    ([lsim]: same tags by HedTag.__eq__, members of every group in any order).
@@ -133,7 +195,7 @@ Print Assumptions C09_shrink_expand_t.
    with the C04 stable-sort lemmas. *)
 Theorem C09_defexpand_valid_iff : forall D t g,
   wfl g = true ->
-  (defexpand_accepted true D t g = true <->
+  (defexpand_accepted current_fs D t g = true <->
    exists e ch, def_entry D t = Some e /\
                 get_definition e t (def_placeholder t) = Ok (Some ch) /\
                 lsim g ch).
@@ -149,8 +211,8 @@ Theorem C09_defexpand_valid_sound : forall D t g,
 Proof. exact defexpand_valid_sound. Qed.
 Print Assumptions C09_defexpand_valid_sound.
 
-(* Record of the repaired defect C09-F2 (fs = false: the ordered comparison used
-   before commit cbb8087): the spelling of the definition itself is rejected, its
+(* Record of the repaired defect C09-F2 (fs = false: behaviour before fix commit
+   cbb8087, the ordered comparison): the spelling of the definition itself is rejected, its
    sorted spelling accepted; the repaired comparison accepts both *)
 Theorem C09_defexpand_valid_refuted :
   exists t content,
@@ -161,7 +223,7 @@ Theorem C09_defexpand_valid_refuted :
 Proof. exact defexpand_valid_refuted. Qed.
 Print Assumptions C09_defexpand_valid_refuted.
 
-(* what was true of the ordered comparison: accepted iff ordered-equal to the
+(* record, behaviour before fix commit cbb8087: what was true of the ordered comparison: accepted iff ordered-equal to the
    stored, sorted expansion with the tag first *)
 Theorem C09_defexpand_valid_partial : forall D t g,
   defexpand_accepted false D t g = true <->
@@ -184,18 +246,21 @@ Print Assumptions C09_defexpand_literal_placeholder_rejected.
 
 (* ---- object layer ------------------------------------------------------------ *)
 
-(* a first expand_defs, by the current or the repaired code, from any state
-   satisfying the invariant (in particular a freshly built string) prints as
-   expand_t of what was printed before, and never raises *)
+(* a first expand_defs from any state satisfying the invariant (in particular a freshly
+   built string) prints as expand_t of what was printed before, and never raises.  Holds
+   of the code as it is (fx = true) and also held before fix commit 60986da (fx = false):
+   the defect only showed from the second call on. *)
 Theorem C09_expand_refines : forall fx D f,
   wf_dict D = true -> InvF D f ->
   exists f', expand_of fx D f = Ok f' /\ abs_of f' = Ok (expand_t D (map abs_p f)).
 Proof. exact expand_refines. Qed.
 Print Assumptions C09_expand_refines.
 
-(* Full statement for the current code (FALSE): expanding twice = expanding once.
-   C09-F1, on the heap model: the second expand_defs replaces the moved tag by its own
-   group, the group becomes its own child, printing raises RecursionError *)
+(* RECORD of the repaired defect C09-F1 (fx = false: behaviour before fix commit 60986da;
+   no longer true of /repo): on the heap model the second expand_defs replaced the moved
+   tag by its own group, the group became its own child, printing raised RecursionError.
+   The statement "expanding twice = expanding once" for the code as it is:
+   C09_expand_twice_now and C09_interleaving below. *)
 Theorem C09_expand_twice_refuted :
   exists s2, run false ex_dict [OpExpand; OpExpand] (load ex_ann) = Ok s2 /\
              abs s2 = Exn RecursionError /\
@@ -203,8 +268,9 @@ Theorem C09_expand_twice_refuted :
 Proof. exact expand_twice_refuted. Qed.
 Print Assumptions C09_expand_twice_refuted.
 
-(* C09-F3: after expand, shrink the current code no longer expands a tag that was
-   written as Def-expand *)
+(* RECORD of the repaired defect C09-F3 (fx = false: behaviour before fix commit 60986da;
+   no longer true of /repo): after expand, shrink a tag that was written as Def-expand was
+   not expanded again *)
 Theorem C09_expand_after_shrink_refuted :
   exists s3 f3, run false ex_dict [OpExpand; OpShrink; OpExpand] (load ex_ann2) = Ok s3 /\
                 abs s3 = Ok f3 /\
@@ -212,26 +278,29 @@ Theorem C09_expand_after_shrink_refuted :
 Proof. exact expand_after_shrink_refuted. Qed.
 Print Assumptions C09_expand_after_shrink_refuted.
 
-(* the repaired code on the F1 witness *)
-Theorem C09_expand_twice_fixed :
-  exists s2, run true ex_dict [OpExpand; OpExpand] (load ex_ann) = Ok s2 /\
-             abs s2 = Ok (expand_t ex_dict ex_ann).
-Proof. exact expand_twice_fixed. Qed.
-Print Assumptions C09_expand_twice_fixed.
+(* the code as it is (since 60986da) on the two witnesses, heap model *)
+Theorem C09_expand_twice_now :
+  (exists s2, run current_fx ex_dict [OpExpand; OpExpand] (load ex_ann) = Ok s2 /\
+              abs s2 = Ok (expand_t ex_dict ex_ann)) /\
+  (exists s3 f3, run current_fx ex_dict [OpExpand; OpShrink; OpExpand] (load ex_ann2) = Ok s3 /\
+                 abs s3 = Ok f3 /\ run_t ex_dict [OpExpand; OpShrink; OpExpand] ex_ann2 = Ok f3).
+Proof. exact expand_twice_now. Qed.
+Print Assumptions C09_expand_twice_now.
 
-(* Interleaving theorem for the repaired code, ownership-tree layer: for EVERY
+(* Interleaving theorem for the code as it is ([current_fx] = true, since fix commit
+   60986da), ownership-tree layer: for EVERY
    sequence of expand / shrink / copy / validate / swap (continue on the object
    the working one was copied from) from any invariant state of all live objects the
    invariant is kept and the object prints as the spec-level run; an exception
    (KeyError of shrink_defs on a group with two Def-expand tags) occurs exactly
    when the spec-level run has it.  By induction on the op list. *)
 Theorem C09_interleaving : forall D, wf_dict D = true -> forall ops st, InvS D st ->
-  match run_os true D ops st with
+  match run_os current_fx D ops st with
   | Ok st' => InvS D st' /\ run_ts D ops (abs_st st) = Ok (abs_st st') /\
               abs_of (fst st') = Ok (map abs_p (fst st'))
   | Exn e => run_ts D ops (abs_st st) = Exn e
   end.
-Proof. exact interleaving. Qed.
+Proof. exact interleaving_now. Qed.
 Print Assumptions C09_interleaving.
 
 (* a freshly built string satisfies the invariant and prints as its text *)
@@ -249,11 +318,12 @@ Proof. exact copy_abs. Qed.
 Print Assumptions C09_copy_abs.
 
 (* expand_defs / shrink_defs (pointer surgery vs. structural recursion): NOT proved
-   in general.  Kernel-evaluated on an enumerated family: 190 annotations (every
+   in general -- C09_interleaving is a theorem about the ownership-tree model only; its
+   transfer to the heap model rests on this bounded check and on testing.  Kernel-evaluated on an enumerated family: 190 annotations (every
    leaf of {Def/MyDef, Def/P/3, Def/P, Def/U, Def-expand/MyDef, Red} and four
    written Def-expand groups, alone, in pairs, grouped, nested twice) x every op
    sequence over {expand, shrink, copy, swap} of length <= 4 for the code as it is
-   (<= 3 for the unrepaired code): same text, same _expandable/_expanded flags of
+   (fx = true; <= 3 for fx = false, the behaviour before fix commit 60986da): same text, same _expandable/_expanded flags of
    every reachable tag, same exceptions.  Beyond that both layers are run in the
    driver on every generated case and each is compared with the implementation. *)
 Theorem C09_layers_agree_family :
